@@ -153,6 +153,16 @@ fn run_c30(ctx: &mut Ctx, rep: &mut Report) {
             let scheme = if rng.chance(1, 6) { "HTTPS" } else { "https" };
             match uri::Https::from_str(&format!("{scheme}://{h}/{m}/{p}")) { Ok(u) => https_uris.push(u), Err(_) => rep.count("uris_rejected_by_parser", 1) }
         }
+        // pairs whose authority / module / path boundaries shift while the concatenated text stays the same
+        for h in ["h.test", "a", "a.b"] {
+            for (m1, p1, m2, p2) in [("ab", "c.cer", "a", "bc.cer"), ("repo", "ta/root.cer", "rep", "ota/root.cer"), ("m", "x/y.cer", "mx", "y.cer"), ("m", "a/b/c.cer", "m", "a/bc.cer")] {
+                for (m, p) in [(m1, p1), (m2, p2)] {
+                    if let Ok(u) = uri::Rsync::from_str(&format!("rsync://{h}/{m}/{p}")) { rsync_uris.push(u) }
+                    if let Ok(u) = uri::Https::from_str(&format!("https://{h}/{m}/{p}")) { https_uris.push(u) }
+                }
+            }
+        }
+        for (a, b2) in [("ab.test", "c/x.cer"), ("a", "b.test/c/x.cer")] { if let Ok(u) = uri::Https::from_str(&format!("https://{a}/{b2}")) { https_uris.push(u) } }
         rsync_uris.sort_by(|a, b| a.as_str().cmp(b.as_str())); rsync_uris.dedup_by(|a, b| a.as_str() == b.as_str()); https_uris.sort_by(|a, b| a.as_str().cmp(b.as_str())); https_uris.dedup_by(|a, b| a.as_str() == b.as_str());
         // store: trust anchors
         let run = store.start();
